@@ -244,6 +244,7 @@ def run(ctx):
     overload_order(ctx)
     const_this_protocol(ctx)
     runtime_sized_allocations_checked(ctx)
+    keyword_matching_polarity(ctx)
 
 
 def _canon_arm(db, f, stmts, label):
@@ -528,3 +529,52 @@ def runtime_sized_allocations_checked(ctx):
             ctx.ob("R02.8", "%s|%s=New(%s)|tested-before-use" % (f.name.split("::")[-1], var, size), ok, f.loc(node),
                    "`%s` allocated with the run-time size `%s` is %stested for NULL before its first use" % (var, size, "" if ok else "NOT "))
     ctx.floor("R02.8", "allocations with a run-time size in emitted code", n, 1)
+
+
+STRING_CMP_API = {
+    # callee: True if a non-zero result means EQUAL, False if zero means equal (strcmp convention)
+    "_PyUnicode_EqualToASCIIString": True, "PyUnicode_EqualToUTF8": True, "_PyUnicode_EqualToASCIIId": True,
+    "PyUnicode_CompareWithASCIIString": False, "strcmp": False, "PyUnicode_Compare": False, "strncmp": False,
+}
+
+
+def keyword_matching_polarity(ctx):
+    """R02.9: a single argument passed by keyword is accepted iff the keyword is the parameter's name: `f(bogus=1)` must
+    raise TypeError and `f(amount=1)` must run.  The generated wrappers delegate this to Dtool_ExtractArg /
+    Dtool_ExtractOptionalArg (py_support.cxx, pasted into every module), which compare the key with CPython string
+    functions of two opposite conventions (strcmp-like: 0 = equal; Equal-like: non-zero = equal).  In the `return` that
+    answers "is this the keyword" every comparison must MEAN equal under its function's own convention.  Decided for the
+    preprocessor branch of the sandbox's Python (3.11); the other version branches are not seen.  (Seed S6-C02.)"""
+    db = ctx.db
+    ctx.rule("R02.9", "in Dtool_ExtractArg / Dtool_ExtractOptionalArg every string comparison of the dictionary key with the keyword inside a return expression is true iff the two are equal, by the convention of the CPython/C function used")
+    n = 0
+    for f in db.functions:
+        if f.name not in ("Dtool_ExtractArg", "Dtool_ExtractOptionalArg") or "py_support" not in f.file:
+            continue
+        for r in f.walk():
+            if r.get("k") != "ret" or r.get("e") is None:
+                continue
+            for c in walk(r["e"]):
+                if c.get("k") != "call" or callee_short(c) not in STRING_CMP_API:
+                    continue
+                n += 1
+                nonzero_is_equal = STRING_CMP_API[callee_short(c)]
+                # how is the result used: walk up to the enclosing comparison / negation inside the return expression
+                means_nonzero = True        # bare use in a boolean context: true iff result != 0
+                for anc in f.ancestors(c):
+                    if anc is r:
+                        break
+                    if anc.get("k") == "bin" and anc.get("op") in ("==", "!="):
+                        other = anc["y"] if any(x is c for x in walk(anc["x"])) else anc["x"]
+                        if const_int(other) == 0:
+                            if anc["op"] == "==":
+                                means_nonzero = not means_nonzero
+                            continue
+                    if anc.get("k") == "un" and anc.get("op") == "!":
+                        means_nonzero = not means_nonzero
+                    if anc.get("k") == "bin" and anc.get("op") in ("&&", "||"):
+                        break
+                equal = (means_nonzero == nonzero_is_equal)
+                ctx.ob("R02.9", "%s(%d)|%s|true-iff-equal" % (f.name, len(f.params), callee_short(c)), equal, f.loc(c),
+                       "`%s` as used in the return is true iff the key %s the keyword" % (show(c)[:50], "EQUALS" if equal else "DIFFERS from"))
+    ctx.floor("R02.9", "keyword comparisons in the argument extractors", n, 2)
